@@ -125,7 +125,7 @@ def main():
     proved = chk.prove('I18n.Props.C08', generated=())
     extra = []
     if os.path.exists(common.driver_path()):
-        n = 40000 if chk.thorough else 4000
+        n = 40000 if chk.thorough else 8000
         files = P.wellformed_files(chk.rng, n, bad_bytes=0.03)
         datas = [WITNESS] + P.seed_files() + [f[0] for f in files]
         dis, outs, kept = P.run_parse_stream(chk, 'mo-parse', datas, encodings=(None, 'ISO-8859-1'))
@@ -134,7 +134,7 @@ def main():
     else:
         chk.broken.append({'kind': 'correspondence', 'stream': 'mo-parse', 'problem': 'driver could not be rebuilt'})
     mult = 5 if chk.broken else 1
-    cex, swap_example, stats = falsify(chk, P, (150000 if chk.thorough else 12000) * mult, extra)
+    cex, swap_example, stats = falsify(chk, P, (150000 if chk.thorough else 30000) * mult, extra)
     chk.evaluations += stats['files']
     cex2, tried2 = (None, 0) if cex else falsify_empty_file(chk, P, (1500 if chk.thorough else 150) * mult)
     chk.evaluations += tried2
